@@ -195,6 +195,7 @@ package fs
 //@   ensures [flush-at-eof] implies(!cancelled() && result0 == abortReading && isnil(result1), g_rawStr == old(g_rawStr) + content(message))
 //@   ensures [hold-partial-line] implies(result0 == nothing, g_rawStr == old(g_rawStr) && f.seekEOF && isnil(result1))
 //@   ensures [cat-stops-at-eof] implies(!f.seekEOF, result0 == abortReading)
+//@   ensures [follow-ends-only-on-error] implies(f.seekEOF && !cancelled() && result0 == abortReading, !isnil(result1))
 
 // ---- filter without context (C01 S3, C04, C07) -----------------------------------------------
 // g_inStr / g_linesStr: contents of the raw lines received / of the lines
